@@ -59,6 +59,10 @@ func (msg MsgCreateFeed) ValidateBasic() error {
 		return errorsmod.Wrapf(sdkerrors.ErrInvalidAddress, "providers missing")
 	}
 
+	if err := ValidateProviders(msg.Providers); err != nil {
+		return err
+	}
+
 	if err := ValidateAggregateFunc(msg.AggregateFunc); err != nil {
 		return err
 	}
@@ -198,6 +202,10 @@ func (msg MsgEditFeed) ValidateBasic() error {
 		if err := ValidateTimeout(msg.Timeout, msg.RepeatedFrequency); err != nil {
 			return err
 		}
+	}
+
+	if err := ValidateProviders(msg.Providers); err != nil {
+		return err
 	}
 
 	if msg.ResponseThreshold != 0 {
